@@ -582,10 +582,12 @@ pub fn run(cfg: &RunCfg) -> CheckReport {
         }
     }
     // large line texts (one family item per line; every other input loses its final newline)
-    let inputs: Vec<_> = super::large::all(cfg.tier, cfg.seed)
+    let mut inputs: Vec<_> = super::large::all(cfg.tier, cfg.seed)
         .into_iter()
         .filter(|i| i.old.len().max(i.new.len()) <= 300)
         .collect();
+    // one 65535-line pair with more than 2^16 distinct lines in total (tiny changed middle)
+    inputs.extend(super::large::wide().into_iter().filter(|i| super::large::lcs_affordable(i)));
     let ex = explore(cfg, inputs.len(), |shard, acc| {
         let inp = &inputs[shard];
         match large_verdict(inp) {
